@@ -472,7 +472,7 @@ func sameElem(a, b ssa.Value) bool {
 
 // c09assert: single-result type assertions on elements of a list parameter.
 func c09assert(c *core.Ctx, r *core.Reporter) {
-	r.Rule(ruleAssert, "every single-result type assertion x.(T) whose operand is an element loaded from a list parameter of the function (its argument list, or a list handed in by its caller) is reached only through the success edge of a comma-ok assertion or type-switch case of the same element to T (or to a type that implies T): a failed single-result assertion is a Go run-time panic (interface conversion), not a Lisp condition", 20)
+	r.Rule(ruleAssert, "every single-result type assertion x.(T) whose operand is an element loaded from a list parameter of the function (its argument list, or a list handed in by its caller) is reached only through the success edge of a comma-ok assertion or type-switch case of the same element to T (or to a type that implies T): a failed single-result assertion is a Go run-time panic (interface conversion), not a Lisp condition", 12)
 	an := lenflow.New(c)
 	seen := map[string]int{}
 	for _, fn := range c.ModuleFuncs() {
